@@ -9,14 +9,14 @@ EXTENDS Source, SettingsPool, Json, SequencesExt
 CONSTANTS FAMILY, ALLSETTINGS, WITHPROG
 
 Cases == CASE FAMILY = "G1a_1" -> G1a_1(0) [] FAMILY = "G1a_2" -> G1a_2(0) [] FAMILY = "G1b" -> G1b(0) [] FAMILY = "G1c" -> G1c(0)
-         [] FAMILY = "G2p_2" -> G2p_2(0) [] FAMILY = "G2p_3" -> G2p_3(0) [] FAMILY = "G2s" -> G2Shapes(0) [] FAMILY = "G2p_3s" -> G2p_3s(0) [] FAMILY = "G7" -> G7(0) [] FAMILY = "G8" -> G8(0) [] FAMILY = "G8b" -> G8b(0)
+         [] FAMILY = "G2p_2" -> G2p_2(0) [] FAMILY = "G2p_3" -> G2p_3(0) [] FAMILY = "G2s" -> G2Shapes(0) [] FAMILY = "G2p_3s" -> G2p_3s(0) [] FAMILY = "G7" -> G7(0) [] FAMILY = "G8" -> G8(0) [] FAMILY = "G8b" -> G8b(0) [] FAMILY = "H1" -> H1(0)
 
 VARIABLES c, S, reg, gst
 vars == <<c, S, reg, gst>>
 
 Init == /\ c \in Cases
         /\ S \in (IF FAMILY = "G7" THEN SubSettings ELSE IF FAMILY = "G8" THEN DeriveSettings ELSE IF FAMILY = "G8b" THEN CompactAsSettings ELSE IF ALLSETTINGS THEN SettingsPool ELSE {Base})
-        /\ reg = Register(ProgOf(c), c.roots).reg
+        /\ reg = RegOf(c)
         /\ gst = GenStart(reg, GenInit)
 
 Running == gst.res = "running" /\ gst.i <= Len(reg)
@@ -49,7 +49,7 @@ ModelFile == [name |-> "", vis |-> TRUE, uses |-> <<>>, mods |-> <<BuildMod(S.ro
 ModelRoot == RootOf(ModelFile)
 
 Terminal == gst.res # "running"
-CF == CoincidenceFree(ProgOf(c), c.roots)
+CF == c.fam # "H1" /\ CoincidenceFree(ProgOf(c), c.roots)
 
 \* the same predicates TV evaluates on the implementation, here on the model
 M_Unfaithful == {id \in Ids(reg) : LET r == ResolveTypePath(reg, S, id) IN r.err = "" /\ ~FaithfulTop(reg, S, ModelRoot, id, r.ty)}
@@ -98,7 +98,7 @@ DesignC17 == (Terminal /\ Tog) => M_C17
 LastUserId == LET u == {i \in Ids(reg) : IsUserPath(Ty(reg, i).path)} IN IF u = {} THEN 0 ELSE CHOOSE i \in u : \A j \in u : j <= i
 
 Emit == Terminal =>
-  PrintT("CASE " \o ToJson([fam |-> c.fam, cf |-> CF, tog |-> Tog, sroots |-> IF WITHPROG THEN c.roots ELSE <<>>, reg |-> reg, settings |-> S, roots |-> Register(ProgOf(c), c.roots).roots,
+  PrintT("CASE " \o ToJson([fam |-> c.fam, cf |-> CF, tog |-> Tog, sroots |-> IF WITHPROG THEN c.roots ELSE <<>>, reg |-> reg, settings |-> S, roots |-> IF c.fam = "H1" THEN <<0>> ELSE Register(ProgOf(c), c.roots).roots,
                             prog |-> IF WITHPROG THEN ProgOf(c) ELSE [defs |-> <<>>, cfgs |-> <<>>],
                             perms |-> <<[pi |-> [i \in 1..Len(reg) |-> Rev[i - 1]], reg |-> Permute(reg, Rev)],
                                         [pi |-> [i \in 1..Len(reg) |-> Rot[i - 1]], reg |-> Permute(reg, Rot)]>>,
